@@ -316,6 +316,17 @@ fn prefixes(rec: &Recorder, r: &mut Rng, c: &FrameCase, info: &zspec::walker::Fr
         for _ in 0..20 {
             cuts.push((r.usize(0, n - 1), "random"));
         }
+        // bounded work per frame: a frame with hundreds of blocks has thousands of such points, and every cut is decoded
+        // by every front end (one case once needed six minutes of CPU time and was called a hang by the watchdog)
+        let budget = ((256usize << 20) / c.expected.len().max(1)).clamp(60, 600);
+        if cuts.len() > budget {
+            rec.count("frames_whose_cut_points_were_sampled", 1);
+            for i in 0..budget {
+                let j = r.usize(i, cuts.len() - 1);
+                cuts.swap(i, j);
+            }
+            cuts.truncate(budget);
+        }
     }
     for (k, class) in cuts {
         let prefix = &c.bytes[..k];
